@@ -207,6 +207,12 @@ pub fn close_side(conn: &ConnRef, side: Side) {
 
 /// Abortive close as the peer of `side` would see it (RST): reads on both directions fail.
 pub fn reset_conn(conn: &ConnRef) {
+    kernel::count("fault.reset");
+    reset_conn_quiet(conn);
+}
+
+/// Same as [`reset_conn`] without counting it as an injected fault (teardown).
+pub fn reset_conn_quiet(conn: &ConnRef) {
     let mut wakes = Vec::new();
     {
         let mut g = lockc(conn);
@@ -221,7 +227,6 @@ pub fn reset_conn(conn: &ConnRef) {
             wakes.push((p.res_w, p.write_waker.take()));
         }
     }
-    kernel::count("fault.reset");
     for (r, w) in wakes {
         wake(r, w);
     }
@@ -320,7 +325,7 @@ pub fn shutdown_all() {
         wake(r, w);
     }
     for c in conns {
-        reset_conn(&c);
+        reset_conn_quiet(&c);
     }
 }
 
